@@ -20,7 +20,7 @@ CHECKS = {
         "0-2 (quick; 0-3 thorough; 'single' shape one longer) over the dialect's alphabet, an integer |i| <= 10^3/10^6, "
         "a finite float in positional repr form or of an exponent-form shape (both signs, magnitudes on both sides of the "
         "points where repr() switches notation), dates/times/datetimes with all fields symbolic, strings shaped like "
-        "numbers and times; in the thorough tier also a module of 121 blocks and one nested 110 levels deep; 14 encoder configurations (indent, width incl. SYMBOLIC widths in [30,100] and in [1,14] - "
+        "numbers and times, strings spelling each aggregation keyword of any grammar in every letter case; in the thorough tier also a module of 121 blocks and one nested 110 levels deep; 14 encoder configurations (indent, width incl. SYMBOLIC widths in [30,100] and in [1,14] - "
         "every statement longer than the line - running the stdlib textwrap on proxies, newline, end-name, delimiter, "
         "PDS3 options). Assertion: "
         "encode refuses with ValueError/TypeError, or the strict load equals the spec-side normalisation of the "
@@ -128,7 +128,8 @@ CHECKS = {
         "(b) decode_by_char / get_text_from / load on stub binary and text streams (the text stub decodes a chunk at a "
         "time like io.TextIOWrapper and has .buffer) whose bytes after the label are symbolic, also positioned after a "
         "header of symbolic bytes, and loads() of a bytes object with a symbolic tail: exactly the longest all-ASCII "
-        "prefix, same module as the str entry. (c) dump to stub text "
+        "prefix, same module as the str entry; with the label ending in END and no line end, every entry point does "
+        "what loads does with the decodable prefix (nothing after an undecodable byte joins END). (c) dump to stub text "
         "/ binary streams writes exactly dumps(...) / its UTF-8 encoding once and returns what write returns, "
         "symbolic string leaf. NOT reachable and not claimed: real paths, PathLike, file: URLs, OS buffering (C/OS "
         "boundary) - left to tests/test_init.py.",
@@ -136,7 +137,7 @@ CHECKS = {
  'C10': dict(
    text="Inductive step decided by symbolic execution of the real container code: pre-state = the container built "
         "from an arbitrary list of 0-3 (quick) / 0-4 (thorough) pairs - every key equality pattern (restricted-growth "
-        "key choice by solver-decided integers), symbolic integer values - then ONE of 22 documented operations with "
+        "key choice by solver-decided integers), symbolic integer values - then ONE of 23 documented operations (extend also with a multi-dict argument) with "
         "every argument choice (existing or new key, index in [-n-2, n+2], instance in [-n-1, n+1], 0-2 argument "
         "pairs, symbolic values), then the full observer suite (iteration, len, integer and slice indexing, the three "
         "views, membership, [], get, getall, key_index, equality/inequality with same and other classes, and the "
